@@ -5,6 +5,7 @@ reference reader (refcodec).  Everything is deterministic given the scenario and
 """
 from __future__ import annotations
 
+import asyncio
 import io
 import struct
 
@@ -234,6 +235,9 @@ class SimCluster:
         await _sleep0(loop)
         if node is None or not self.brokers[node]["up"]:
             self.ev("connect_refused", host=host)
+            # a refused connection costs a network round trip: without it, client code that
+            # retries a failed connect without backoff would spin at frozen virtual time
+            await asyncio.sleep(self.connect_refused_delay)
             raise ConnectionRefusedError(f"{host}:{port} unreachable (simulated)")
         proto = protocol_factory()
         self.conn_counter += 1
@@ -295,6 +299,7 @@ class SimCluster:
         self.send_reply(tr, cls, corr, resp, delay, info)
 
     stall_reset_after = 5.0
+    connect_refused_delay = 0.001
 
     def stall(self, tr):
         """A reply that is never sent: the connection stays blocked (head of line) and the
